@@ -112,6 +112,22 @@ def generate(rng: Rng, n, tier="quick"):
             c = {"kind": "session", "regs": [{"escape": "none"}], "ops": ops + [top, rend("ab"), rend("a_"), rend("_b")], "id": "C08-i%03d" % k}
             out.append((c, {"mode": "pairind", "A": A}))
             k += 1
+    # a STANDALONE partial line whose partial writes nothing contributes nothing: the same partial body with and without that line
+    # renders alike, wherever the body is included (mid-line, on an indented line of its own, in a loop) and whatever follows the line
+    el = 0
+    for main in ("- {{> item}}", "<ul>\n    {{> item}}\n</ul>", "{{#each l}}\n  {{> item}}\n{{/each}}|", "{{#with o}}\n\t{{> item}}\n{{/with}}", "a\n {{#> item}}{{/item}}\nb"):
+        for pre in ("", "abc{{y~}}\n", "abc\n", "{{y}}\n", "abc{{y~}}\n\n"):
+            for line in ("  {{> empty}}\n", "\t{{> e2}}\n", "{{> empty}}\n", "  {{> empty}}\n  {{> e2}}\n"):
+                for post in ("foo\n", "{{y}}\n", "  foo\n", "foo", "{{#if y}}foo{{/if}}\n"):
+                    if "~}}" in pre and post[0] in " \t":
+                        continue         # the `~` reaches to the next TAG: with the line it stops there, without it it takes the next line's indentation
+                    dd = {"y": "Y", "l": [1, 2], "o": {"y": "Z"}, "f": False}
+                    regs = [{"op": "reg_string", "reg": 0, "name": "empty", "src": ""}, {"op": "reg_string", "reg": 0, "name": "e2", "src": "{{#if f}}x{{/if}}"}]
+                    rnd = lambda body: [{"op": "reg_string", "reg": 0, "name": "item", "src": body},
+                                        {"op": "render", "reg": 0, "api": "render_template", "src": main, "data": enc(dd)}]
+                    c = {"kind": "session", "regs": [{"escape": "none"}], "ops": regs + rnd(pre + line + post) + rnd(pre + post), "id": "C08-el%04d" % el}
+                    el += 1
+                    out.append((c, {"mode": "emptyline", "A": pre + line + post}))
     # listed witness of F20: a compact comment whose text begins with `--` opens a block comment when a later `--}}` exists
     A = "x{{! ---}}y"
     c = {"kind": "session", "regs": [{"escape": "none"}], "ops": [
@@ -142,6 +158,11 @@ def oracle(case, meta, impl):
         if ab.get("r") == "ok":
             return ["one operand fails alone but the combination renders"]
         return []
+    if mode == "emptyline":
+        w, wo = rs[-3], rs[-1]
+        if w.get("r") != "ok" or wo.get("r") != "ok":
+            return None
+        return [] if w["out"] == wo["out"] else ["with the empty standalone partial line the body renders %r, without it %r" % (w["out"], wo["out"])]
     if mode == "pairind":
         ab, a, b = rs[-3], rs[-2], rs[-1]
         if a.get("r") != "ok" or b.get("r") != "ok":
